@@ -38,6 +38,12 @@ def space(ctx):
         for ts in ts_opts:
             for z0 in (None, 77):
                 yield (u, mo, ws, wd, ts, z0)
+    # forcing states that are revisited (entries recur inside the lists): step i must still carry ITS label
+    for n in (3, 4):
+        for pat in (("R", "R", "R", "R"), ("S", "S", "S", "R"), ("R", "S", "R", "S"), ("N", "R", "S", "R")):
+            for ts in (None, n):
+                for z0 in ((None, 77) if pat[0] != "N" else (77,)):
+                    yield tuple((k, n if k == "R" else None) for k in pat) + (ts, z0)
 
 
 def mk(base, spec):
@@ -46,6 +52,8 @@ def mk(base, spec):
         return None
     if kind == "S":
         return base
+    if kind == "R":   # list whose entries recur (a forcing state that is revisited): values base+1, base+2, base+1, ...
+        return [base + 1 + (i % 2) for i in range(n)]
     return [base + 1 + i for i in range(n)]
 
 
@@ -93,16 +101,27 @@ def run_impl(cp, met, through_drivers=False):
 
         orig = itf.run_bldfm_single
         seen = []
-        itf.run_bldfm_single = lambda config, tower, met_index=0, **kw: seen.append(met_index) or {"i": met_index}
+
+        def stub(config, tower, met_index=0, **kw):
+            seen.append(met_index)
+            st = config.met.get_step(met_index)
+            return {"i": met_index, "timestamp": st["timestamp"], "params": st, "tower_name": tower.name}
+
+        itf.run_bldfm_single = stub
+        returned = None
         try:
-            itf.run_bldfm_timeseries(cfg, cfg.towers[0])
-            itf.run_bldfm_multitower(cfg)
+            r1 = itf.run_bldfm_timeseries(cfg, cfg.towers[0])
+            r2 = itf.run_bldfm_multitower(cfg)
+            # what the drivers hand back: one result per step, in time order, each carrying ITS step's label and values
+            returned = [enc_step(r["params"])[:5] + [r["timestamp"]] for r in r1] + [enc_step(r["params"])[:5] + [r["timestamp"]] for r in r2[cfg.towers[0].name]]
         except Exception:
             seen = None
         finally:
             itf.run_bldfm_single = orig
-        if seen != list(range(n)) * 2:
+        if seen is None:
             out.append([-996])
+        elif returned != out[:n] * 2:
+            out.append([-995])
     return out
 
 
@@ -112,6 +131,8 @@ def coq_fld(base, spec, optional=False):
         return "None"
     if kind == "S":
         t = "(Scalar %d)" % base
+    elif kind == "R":
+        t = "(Lst [%s])" % "; ".join(str(base + 1 + (i % 2)) for i in range(n))
     else:
         t = "(Lst [%s])" % "; ".join(str(base + 1 + i) for i in range(n))
     return "(Some %s)" % t if optional else t
@@ -134,7 +155,7 @@ def coq_expected(e):
 
 def nontrivial(c, e):
     """non-trivial: at least one list-valued field and (accepted with >= 2 steps, or rejected)"""
-    has_list = any(x[0] == "L" for x in c[:4])
+    has_list = any(x[0] in ("L", "R") for x in c[:4])
     return has_list and (e is None or len(e) >= 2)
 
 
@@ -144,7 +165,7 @@ def check(ctx):
     cases = list(space(ctx))
     exp = []
     for k, c in enumerate(cases):
-        exp.append(run_impl(cp, build_case(c), through_drivers=(k % 7 == 0)))
+        exp.append(run_impl(cp, build_case(c), through_drivers=(k % 7 == 0 or any(x[0] == "R" for x in c[:4]))))
     # evaluate the model in Coq, batch-wise: each batch returns the list of disagreeing indices
     header = "From Coq Require Import List ZArith Bool.\nFrom BL Require Import Model.Met Model.MetExec.\nImport ListNotations.\nOpen Scope Z_scope.\n"
     B = 50
@@ -175,7 +196,7 @@ def check(ctx):
     ctx.cov.update({
         "evaluations": len(cases),
         "distinct_nontrivial": sum(1 for c, e in zip(cases, exp) if nontrivial(c, e)),
-        "rule": "exhaustive product of {absent(ustar only), scalar, list of length L} for the four fields x timestamps {absent, lengths} x z0 {absent, present}; L in %s; non-trivial = has a list-valued field and is rejected or has >= 2 steps; every 7th case is additionally pushed through run_bldfm_timeseries/multitower with a stubbed single run to observe range(n_timesteps)" % ("0..4" if ctx.thorough else "1..3"),
+        "rule": "exhaustive product of {absent(ustar only), scalar, list of length L} for the four fields x timestamps {absent, lengths} x z0 {absent, present}; L in %s; non-trivial = has a list-valued field and is rejected or has >= 2 steps; plus series whose entries recur (a revisited forcing state); every 7th case and every recurring series is additionally pushed through run_bldfm_timeseries/multitower with a stubbed single run: the indices the drivers ask for are range(n_timesteps) and the i-th returned result carries the i-th step's values and label" % ("0..4" if ctx.thorough else "1..3"),
         "samples": [{"met": build_case(c), "impl": e} for c, e in list(zip(cases, exp))[5::max(1, len(cases) // 5)]][:6],
         "exhaustive": True,
         "histogram": hist,
